@@ -4,3 +4,10 @@ import Properties.C08
 #print axioms Hive.C08.ops
 #print axioms Hive.C08.stations_fixed
 #print axioms Hive.C08.bases_fixed
+#print axioms Hive.C08.at_exact
+#print axioms Hive.C08.search_exact
+#print axioms Hive.C08.search_finds
+#print axioms Hive.C08.reachable_lookup
+#print axioms Hive.C08.reachable_station_search
+#print axioms Hive.C08.reachable_base_search
+#print axioms Hive.C08.ops_lookup
